@@ -126,6 +126,8 @@ def build_record(spec):
     """-> secmet Record with everything the spec asks for (all producers are the real ones)"""
     circular = spec["circ"]
     extras = set(spec.get("extras", ()))
+    if "*all*" in extras:
+        extras = set(EXTRAS_MENU)     # "everything at once" keeps one name however many extras exist
     bio = normalise(make_biopython(circular, spec["layout"], extras))
     rec = Record.from_biopython(bio, taxon="bacteria")
     rec.record_index = 1
@@ -201,6 +203,12 @@ def build_record(spec):
                          peptide_subclass="Class I", score=12.5, monoisotopic_mass=100.25, molecular_weight=110.5,
                          alternative_weights=[120.5, 130.5])
         rec.add_cds_motif(pre)
+    if "smiles" in extras and rec.get_candidate_clusters():
+        # what the NRPS/PKS structure prediction's results do to a candidate cluster (the module itself needs external tools):
+        # only the first candidate cluster gets a structure, the others stay without
+        first = rec.get_candidate_clusters()[0]
+        first.smiles_structure = "NC(CC(=O)O)C(=O)O"
+        first.polymer = "(asp) + (mal)"
     if "prepeptide-plain" in extras:
         # a precursor without a subclass, leader or tail (e.g. lassopeptide style), on the last gene
         gene = rec.get_cds_features()[-1] if not rec.get_cds_features()[-1].location.crosses_origin() else rec.get_cds_features()[-2]
@@ -282,8 +290,10 @@ def describe(rec):
                            sorted(c.get_name() for c in p.definition_cdses),
                            _parent_number(p))
                           for p in rec.get_protoclusters()],
+        # (attributes are read from the objects, not from their converted form, so a conversion that invents values shows)
         "candidates": [(c.get_candidate_cluster_number(), _loc(c.location), str(c.kind),
-                        [p.get_protocluster_number() for p in c.protoclusters]) for c in rec.get_candidate_clusters()],
+                        [p.get_protocluster_number() for p in c.protoclusters], c.smiles_structure, c.polymer)
+                       for c in rec.get_candidate_clusters()],
         "subregions": [(s.get_subregion_number(), _loc(s.location), s.tool, s.label) for s in rec.get_subregions()],
         "regions": [(r.get_region_number(), _loc(r.location), [c.get_candidate_cluster_number() for c in r.candidate_clusters],
                      [s.get_subregion_number() for s in r.subregions], sorted(c.get_name() for c in r.cds_children))
@@ -311,14 +321,17 @@ def _parent_number(proto):
         return "stale"
 
 
+EXTRAS_MENU = ["pfam", "nrps", "prepeptide", "tta", "misc", "gene", "source", "cdsnote", "prepeptide-plain", "smiles"]
+
+
 def specs(tier):
     """the catalogue: every combination of the menus (quick: extras one at a time, thorough: all subsets of size <= 2 + everything)"""
     out = []
-    extras_menu = ["pfam", "nrps", "prepeptide", "tta", "misc", "gene", "source", "cdsnote", "prepeptide-plain"]
+    extras_menu = EXTRAS_MENU
     if tier == "quick":
-        extra_sets = [[]] + [[e] for e in extras_menu] + [extras_menu]
+        extra_sets = [[]] + [[e] for e in extras_menu] + [["*all*"]]
     else:
-        extra_sets = [[]] + [[e] for e in extras_menu] + [list(c) for c in itertools.combinations(extras_menu, 2)] + [extras_menu]
+        extra_sets = [[]] + [[e] for e in extras_menu] + [list(c) for c in itertools.combinations(extras_menu, 2)] + [["*all*"]]
     for circ in (False, True):
         for layout in LAYOUTS:
             if layout in CIRCULAR_ONLY and not circ:
